@@ -176,6 +176,10 @@ def unsplit_netloc(username, password, hostname, port):
     if hostname is None:
         hostname = ""
 
+    # NOTE: SplitResult.hostname comes without the brackets of an IPv6 literal
+    elif ":" in hostname and not hostname.startswith("["):
+        hostname = "[" + hostname + "]"
+
     if username and password:
         auth = username + ":" + password
     elif username:
